@@ -79,6 +79,25 @@ def inputs_table_graphs(L, ns=(2, 3, 4, 5, 6)):
     return out
 
 
+def named_states(n):
+    """Textbook states as preparation programs: GHZ, linear / ring cluster, star graph, Y-basis product, 6-qubit AME (names for the evidence)."""
+    out = []
+    out.append(("GHZ", [["h", 0, -1]] + [["cx", i, i + 1] for i in range(n - 1)]))
+    out.append(("GHZ-minus", [["x", 0, -1], ["h", 0, -1]] + [["cx", i, i + 1] for i in range(n - 1)] + [["x", n - 1, -1]]))
+    out.append(("linear cluster", [["h", q, -1] for q in range(n)] + [["cz", i, i + 1] for i in range(n - 1)]))
+    if n >= 3:
+        out.append(("ring cluster", [["h", q, -1] for q in range(n)] + [["cz", i, (i + 1) % n] for i in range(n)]))
+    out.append(("star graph", [["h", q, -1] for q in range(n)] + [["cz", 0, i] for i in range(1, n)]))
+    out.append(("Y-basis product", [g for q in range(n) for g in (["h", q, -1], ["s", q, -1])]))
+    out.append(("Y-basis product minus", [g for q in range(n) for g in (["h", q, -1], ["sdg", q, -1])]))
+    out.append(("GHZ in the Y frame", [["h", 0, -1]] + [["cx", i, i + 1] for i in range(n - 1)] + [["s", q, -1] for q in range(n)]))
+    if n == 6:
+        path = [0, 1, 2, 3, 4, 5, 0, 4, 5, 2, 1, 3]
+        edges = sorted({tuple(sorted((path[i], path[i + 1]))) for i in range(len(path) - 1)})
+        out.append(("AME(6)", [["h", q, -1] for q in range(6)] + [["cz", a, b] for a, b in edges]))
+    return out
+
+
 def graph_program(n, g):
     """the textbook graph-state circuit: H on every qubit, CZ on every edge (documented bit layout of the graph id)"""
     gates = [["h", q, -1] for q in range(n)]
